@@ -260,8 +260,12 @@ NON_RAISING_WRAPPERS = {'create_task', 'ensure_future', 'partial'}
 
 
 def _inside_nonraising_wrapper(call: ast.AST, root: ast.AST) -> bool:
+    """Is `call` (a node inside the expression/statement `root`) an argument of
+    create_task / partial / gather(return_exceptions=True) or inside a lambda?"""
+    if call is root:
+        return False
     cur = parent(call)
-    while cur is not None and cur is not root:
+    while cur is not None:
         if isinstance(cur, ast.Call):
             nm = call_name(cur)
             if nm in NON_RAISING_WRAPPERS:
@@ -269,8 +273,10 @@ def _inside_nonraising_wrapper(call: ast.AST, root: ast.AST) -> bool:
             if nm == 'gather' and any(k.arg == 'return_exceptions' and isinstance(k.value, ast.Constant)
                                       and k.value.value is True for k in cur.keywords):
                 return True
-        if isinstance(cur, (ast.Lambda,) + FUNC_NODES):
+        if isinstance(cur, ast.Lambda):
             return True
+        if cur is root or isinstance(cur, ast.stmt):
+            break
         cur = parent(cur)
     return False
 
@@ -446,3 +452,158 @@ class ReleaseSummaries:
         p = c.find_path([c.entry], lambda n: n.kind == kind, avoid=lambda n: self.is_release_node(n, recv), edge_ok=ef)
         self.memo[key] = p is None
         return self.memo[key]
+
+
+# --------------------------------------------------------------------------
+# Typed exception-escape analysis (syntax directed, interprocedural fixpoint).
+# Result per function: set of exception class names that may leave it; '*'
+# stands for "an Exception of unknown class" (raised by an awaited library
+# call or a named raising primitive).  CancelledError is not tracked here.
+class EscapeAnalysis:
+    def __init__(self, eng: Engine):
+        self.eng = eng
+        self.esc: dict[FuncInfo, frozenset[str]] = {f: frozenset() for f in eng.repo.all_funcs()}
+        changed = True
+        rounds = 0
+        while changed and rounds < 15:
+            changed = False
+            rounds += 1
+            for f in eng.repo.all_funcs():
+                new = frozenset(self._block(f, f.node.body))
+                if new != self.esc[f]:
+                    self.esc[f] = new
+                    changed = True
+
+    def of(self, fn: FuncInfo) -> frozenset[str]:
+        return self.esc.get(fn, frozenset())
+
+    # ---- expressions
+    def expr(self, fn: FuncInfo, e: Optional[ast.AST]) -> set[str]:
+        out: set[str] = set()
+        if e is None:
+            return out
+        for x in walk_with_lambdas(e):
+            if isinstance(x, ast.Await):
+                v = x.value
+                if not isinstance(v, ast.Call):
+                    out.add('*')          # awaiting a future / task: whatever it was completed with
+                    continue
+                nm = call_name(v)
+                if nm in ('sleep',):
+                    continue
+                if nm == 'gather' and any(k.arg == 'return_exceptions' and const_true(k.value) for k in v.keywords):
+                    continue
+                cs = self.eng.res.callees(v, fn)
+                if not cs:
+                    if nm in ('gather', 'wait', 'wait_for'):
+                        continue          # their arguments are examined as ordinary calls below
+                    out.add('*')
+            elif isinstance(x, ast.Call):
+                if _inside_nonraising_wrapper(x, e):
+                    continue
+                nm = call_name(x)
+                cs = self.eng.res.callees(x, fn)
+                if cs:
+                    asyncs = [c for c in cs if c.is_async]
+                    awaited = isinstance(parent(x), ast.Await) or _feeds_gather(x)
+                    for c in cs:
+                        if c.is_async and not awaited:
+                            continue
+                        out |= self.esc.get(c, frozenset())
+                elif nm in RAISING_PRIMITIVES:
+                    out.add('*')
+        return out
+
+    # ---- statements
+    def _block(self, fn: FuncInfo, stmts: list[ast.stmt], caught: frozenset[str] = frozenset()) -> set[str]:
+        out: set[str] = set()
+        for st in stmts:
+            out |= self._stmt(fn, st, caught)
+        return out
+
+    def _stmt(self, fn: FuncInfo, st: ast.stmt, caught: frozenset[str]) -> set[str]:
+        if isinstance(st, FUNC_NODES) or isinstance(st, ast.ClassDef):
+            return set()
+        if isinstance(st, ast.Raise):
+            if st.exc is None:
+                return set(caught) if caught else {'*'}
+            e = st.exc.func if isinstance(st.exc, ast.Call) else st.exc
+            ch = attr_chain(e)
+            name = ch[-1] if ch else None
+            out = self.expr(fn, st.exc)
+            if name == 'CancelledError':
+                return out
+            if name and (name in cfgmod.EXC_PARENTS or name[:1].isupper()):
+                out.add(name)
+            else:
+                out.add('*')
+            return out
+        if isinstance(st, ast.Try):
+            body = self._block(fn, st.body, caught)
+            remaining: set[str] = set()
+            handler_out: set[str] = set()
+            for t in body:
+                must = False
+                for h in st.handlers:
+                    m = cfgmod.handler_catches(h, 'exc', None if t == '*' else t)
+                    if t == '*' and m == 'may':
+                        m = 'no' if True else m      # an unknown Exception is only surely caught by a catch-all
+                    if m == 'must':
+                        must = True
+                        break
+                if not must:
+                    remaining.add(t)
+            for h in st.handlers:
+                names = cfgmod.handler_type_names(h)
+                hc: set[str] = set()
+                for t in body:
+                    m = cfgmod.handler_catches(h, 'exc', None if t == '*' else t)
+                    if m in ('must', 'may'):
+                        hc.add(t)
+                handler_out |= self._block(fn, h.body, frozenset(hc))
+            out = remaining | handler_out | self._block(fn, st.orelse, caught) | self._block(fn, st.finalbody, caught)
+            return out
+        if isinstance(st, (ast.With, ast.AsyncWith)):
+            out = set()
+            for i in st.items:
+                out |= self.expr(fn, i.context_expr)
+                if isinstance(i.context_expr, ast.Call) and call_name(i.context_expr) in ('atimeout', 'timeout'):
+                    out.add('TimeoutError')
+                elif isinstance(st, ast.AsyncWith) and not self.eng.res.callees(i.context_expr, fn) if isinstance(i.context_expr, ast.Call) else False:
+                    if 'lock' not in unparse(i.context_expr).lower():
+                        out.add('*')
+            return out | self._block(fn, st.body, caught)
+        if isinstance(st, (ast.If, ast.While)):
+            return self.expr(fn, st.test) | self._block(fn, st.body, caught) | self._block(fn, st.orelse, caught)
+        if isinstance(st, (ast.For, ast.AsyncFor)):
+            return self.expr(fn, st.iter) | self._block(fn, st.body, caught) | self._block(fn, st.orelse, caught)
+        out = set()
+        for c in ast.iter_child_nodes(st):
+            if isinstance(c, ast.expr):
+                out |= self.expr(fn, c)
+        if isinstance(st, ast.Assert):
+            out.add('AssertionError')
+        return out
+
+
+def const_true(e: ast.AST) -> bool:
+    return isinstance(e, ast.Constant) and e.value is True
+
+
+def _feeds_gather(call: ast.Call) -> bool:
+    cur = parent(call)
+    while cur is not None and not isinstance(cur, ast.stmt):
+        if isinstance(cur, ast.Call) and call_name(cur) in ('gather', 'wait', 'wait_for'):
+            return True
+        cur = parent(cur)
+    return False
+
+
+def _escape(self) -> EscapeAnalysis:
+    m = getattr(self, '_escape_obj', None)
+    if m is None:
+        m = self._escape_obj = EscapeAnalysis(self)
+    return m
+
+
+Engine.escape = _escape  # type: ignore[attr-defined]
